@@ -125,6 +125,28 @@ def judge(case):
             if np.abs(np.array(uni.atoms.positions, dtype=float) - frames[k]).max() > 0:
                 msgs.append(f"re-reading frame {k} out of order gives different coordinates")
                 break
+        if not msgs:
+            # the one-molecule pseudotrajectories are the corresponding atoms of the same frames; they belong to the caller:
+            # editing them in place must not change the full pseudotrajectory
+            try:
+                with quiet():
+                    for mol2 in (True, False):
+                        one = pt.get_one_molecule_pt_as_universe(return_mol2=mol2)
+                        sub = np.array([np.array(ts.positions, dtype=float) for ts in one.trajectory])
+                        want_sub = np.array(frames)[:, n1:] if mol2 else np.array(frames)[:, :n1]
+                        if sub.shape != want_sub.shape or np.abs(sub - want_sub).max() > ATOL:
+                            msgs.append(f"one-molecule pseudotrajectory (molecule {2 if mol2 else 1}) is not the corresponding "
+                                        f"atoms of the full frames")
+                            break
+                        for ts in one.trajectory:       # the caller recentres / rescales its own universe frame by frame
+                            one.atoms.translate([3.0, -2.0, 7.5])
+                            ts.positions[:] = ts.positions * 1.5
+                    after = [np.array(ts.positions, dtype=float) for ts in pt.get_pt_as_universe().trajectory]
+                if not msgs and (len(after) != K or any(np.abs(a - f).max() > 0 for a, f in zip(after, frames))):
+                    msgs.append("the full pseudotrajectory changed after the caller edited the one-molecule universes it was "
+                                "handed by get_one_molecule_pt_as_universe")
+            except Exception as e:
+                msgs.append(f"one-molecule pseudotrajectory: {type(e).__name__}: {e}")
         if not msgs and case.get("writer_ops"):
             msgs += judge_writer(case, d, p1, p2, arr, frames, names)
         return msgs
